@@ -360,6 +360,9 @@ class Interp:
                          for i, t in enumerate(p[1]))
         if k == "Obj":
             return self.fresh_obj(p[1], name)
+        if k == "PyConst":
+            import ast as _ast
+            return _ast.literal_eval(p[1])
         if k == "PyList":
             ety, n = [x.strip() for x in p[1].rsplit(",", 1)]
             return [self.fresh(ety, f"{name}[{i}]") for i in range(int(n))]
